@@ -91,7 +91,9 @@ def c10_relevant(kind, rec, case):
 
 
 def c11_relevant(kind, rec, case):
-    return kind in ("sol", "verdict", "solset", "subset", "opt", "partial", "nonterm", "panic", "hang", "bad")
+    # asol / averdict / core / conflicting: answers of assumption solves made after (or cut short by) an interruption
+    return kind in ("sol", "verdict", "solset", "subset", "opt", "partial", "nonterm", "panic", "hang", "bad",
+                    "asol", "averdict", "core", "conflicting")
 
 
 def c18_relevant(kind, rec, case):
